@@ -47,6 +47,8 @@ func checkC01(ctx *Ctx, r *Report) {
 	c01OmitEmptyOnCollections(ctx, r)
 	c01GoDateTimeKeepsText(ctx, r)
 	c01EnumNullMember(ctx, r)
+	c08UnionReuseComparesBranches(ctx, r)
+	c01GoNamedDateTimeIsAlias(ctx, r)
 	c01LoopLocalResult(ctx, r)
 	c12UnionWrapperClassified(ctx, r)
 	c01AbsentDefaultedField(ctx, r)
@@ -2803,4 +2805,59 @@ func c11FifthRound(ctx *Ctx, r *Report) {
 	}
 	r.Count("hunted clauses of the Python wire format (5th round)", n)
 	r.Floor("hunted clauses of the Python wire format (5th round)", 6)
+}
+
+// c01GoNamedDateTimeIsAlias: a named date-time string (`Timestamp: {type: string, format: date-time}`) is declared from
+// time.Time. A *defined* type (`type Timestamp time.Time`) does not inherit the methods of time.Time — MarshalJSON,
+// UnmarshalJSON — so no document decodes into it; an *alias* (`type Timestamp = time.Time`) does. In
+// formatTypeDeclaration, the scalar case declares the date-time hint with `=`.
+func c01GoNamedDateTimeIsAlias(ctx *Ctx, r *Report) {
+	fn := ctx.LookupMethod("internal/jennies/golang", "typeFormatter", "formatTypeDeclaration")
+	fd, p := ctx.DeclOf(fn)
+	if fd == nil {
+		r.Undecided("anchor lost: golang.typeFormatter.formatTypeDeclaration")
+		return
+	}
+	info := p.TypesInfo
+	alias := false
+	found := false
+	ast.Inspect(fd.Body, func(m ast.Node) bool {
+		cc, ok := m.(*ast.CaseClause)
+		if !ok {
+			return true
+		}
+		scalar := false
+		for _, e := range cc.List {
+			if strings.HasSuffix(exprString(e), "KindScalar") {
+				scalar = true
+			}
+		}
+		if !scalar {
+			return true
+		}
+		found = true
+		ast.Inspect(cc, func(k ast.Node) bool {
+			is, ok := k.(*ast.IfStmt)
+			if !ok || !strings.Contains(exprString(is.Cond), "HintStringFormatDateTime") {
+				return true
+			}
+			ast.Inspect(is.Body, func(q ast.Node) bool {
+				if lit, ok := q.(*ast.BasicLit); ok && lit.Kind == token.STRING {
+					if tv, ok := info.Types[lit]; ok && tv.Value != nil && strings.HasPrefix(constant.StringVal(tv.Value), "type %s = ") {
+						alias = true
+					}
+				}
+				return true
+			})
+			return true
+		})
+		return false
+	})
+	if !found {
+		r.Undecided("anchor changed: formatTypeDeclaration has no case for scalars")
+		return
+	}
+	r.Count("declarations of named date-time strings (Go)", 1)
+	r.Check(alias, "kinds/go-named-datetime-is-alias", "golang.formatTypeDeclaration declares a named date-time string", fd.Pos(), "as an alias of time.Time",
+		"a named date-time string is declared `type Timestamp time.Time`: the defined type has none of time.Time's methods, and {\"at\":\"2024-01-02T03:04:05Z\"} fails with `cannot unmarshal string into Go struct field Event.at of type demo.Timestamp` with both decoders")
 }
